@@ -18,9 +18,10 @@ import (
 // C12 — the public API is total: a value or an error, promptly, for every input.
 
 type APICase struct {
-	Src  string `json:"src"`
-	Host *H     `json:"host,omitempty"` // environment as Go host data (nil: no environment)
-	Kind string `json:"kind,omitempty"`
+	Src   string `json:"src"`
+	Host  *H     `json:"host,omitempty"`  // environment as Go host data (nil: no environment)
+	Fixed string `json:"fixed,omitempty"` // instead of Host: the name of a fixed host value (fixedHost: cyclic, recursive, over-deep, unsupported values that the generator cannot build)
+	Kind  string `json:"kind,omitempty"`
 }
 
 const slowCall = 5 * time.Second
@@ -41,6 +42,14 @@ func timed(name string, f func()) (p *run.Panic, slow error) {
 }
 
 func apiEnv(c *APICase) (v interface{}, okk bool) {
+	if c.Fixed != "" {
+		mk, found := fixedHost[c.Fixed]
+		if !found {
+			return nil, false
+		}
+		v, _ = mk()
+		return v, true
+	}
 	if c.Host == nil {
 		return nil, true
 	}
@@ -56,7 +65,12 @@ func checkAPI(c *APICase) *Outcome {
 	if !okk {
 		return skip("harness:host-value-not-constructible")
 	}
-	desc := fmt.Sprintf("src %q env %#v", c.Src, env)
+	var desc string
+	if c.Fixed != "" {
+		desc = fmt.Sprintf("src %q env fixed host value %q", c.Src, c.Fixed) // may be cyclic: not printable
+	} else {
+		desc = fmt.Sprintf("src %q env %#v", c.Src, env)
+	}
 	if len(desc) > 1200 {
 		desc = desc[:1200] + "..."
 	}
@@ -99,12 +113,20 @@ func checkAPI(c *APICase) *Outcome {
 		if callable == nil {
 			return bad("Compile returned neither a Callable nor an error (%s)", desc)
 		}
-		for _, other := range []interface{}{env, map[string]interface{}{"zz": 1}, nil, 42, struct{ X chan int }{}} {
+		others := []interface{}{env, map[string]interface{}{"zz": 1}, nil, 42, struct{ X chan int }{}}
+		if c.Fixed == "" {
+			// the hostile fixed values as run-time environment of a Callable compiled against something else
+			for _, n := range []string{"recursive-type-nil-link", "cyclic-map", "nested-101"} {
+				v, _ := fixedHost[n]()
+				others = append(others, v)
+			}
+		}
+		for _, other := range others {
 			var rv *val.Val
 			var rerr error
 			p, slow = timed("Callable", func() { rv, rerr = callable(other) })
 			if p != nil {
-				return bad("the Callable panicked instead of returning an error: %s (run-time env %#v; %s)", p.Text, other, desc)
+				return bad("the Callable panicked instead of returning an error: %s (run-time env %T; %s)", p.Text, other, desc)
 			}
 			if slow != nil {
 				return bad("not prompt: %v (%s)", slow, desc)
@@ -132,6 +154,9 @@ func checkAPI(c *APICase) *Outcome {
 		classes = append(classes, "accepted-evaluation-fails")
 	default:
 		classes = append(classes, "rejected")
+	}
+	if c.Fixed != "" {
+		classes = append(classes, "fixed-host-env:"+c.Fixed)
 	}
 	if c.Host != nil {
 		classes = append(classes, "with-host-env")
@@ -241,7 +266,9 @@ func genAPICase(t *rapid.T) *APICase {
 	if len(c.Src) > maxLen {
 		c.Src = c.Src[:maxLen]
 	}
-	if rapid.IntRange(0, 2).Draw(t, "withhost") == 0 {
+	if rapid.IntRange(0, 7).Draw(t, "withfixed") == 0 {
+		c.Fixed = pick2(t, fixedHostNames())
+	} else if rapid.IntRange(0, 2).Draw(t, "withhost") == 0 {
 		g := &hostGen{t: t, errProb: 8}
 		ty := g.typ(rapid.IntRange(0, 3).Draw(t, "hdepth"))
 		c.Host = g.fill(ty, true)
@@ -339,7 +366,7 @@ var scaleCases = []*ScaleCase{
 }
 
 func TestC12(t *testing.T) {
-	R.Rule = "source strings up to 256 bytes (quick) / 4 KiB (thorough): random bytes, random runes, token soup from the lexicon, grammar-aware edits (insert / delete / duplicate / swap) of valid programs taken from a seed list and from the program generator, bracket nests to depth 12, valid programs; environments: none or Go host values built by reflection (structs, maps, slices, pointers, interface parts, nil parts, unsupported kinds); every call of Eval, Compile (two back ends), the Callable (same environment, a mismatching map, nil, a number, an unsupported struct) and Debug must return without panicking, with a value or an error, within 5 s (a slower call is repeated three times and reported only if slow every time; a call that does not return within 180 s aborts the run as a violation); scaling class: compile time against repetition count 2..60 for 45 nest, chain and prefix shapes must not grow by more than 2.5x per two levels over four consecutive steps from depth 12 on; non-trivial = input accepted, or rejected with more than one token"
+	R.Rule = "source strings up to 256 bytes (quick) / 4 KiB (thorough): random bytes, random runes, token soup from the lexicon, grammar-aware edits (insert / delete / duplicate / swap) of valid programs taken from a seed list and from the program generator, bracket nests to depth 12, valid programs; environments: none, Go host values built by reflection (structs, maps, slices, pointers, interface parts, nil parts, unsupported kinds), or one of the fixed hostile host values (cyclic maps / slices / struct rings, self-referential pointers, recursive Go types with nil links, nesting beyond conv's limit, typed nils, unsupported kinds), also as run-time environment of a Callable compiled against something else; every call of Eval, Compile (two back ends), the Callable (same environment, a mismatching map, nil, a number, an unsupported struct) and Debug must return without panicking, with a value or an error, within 5 s (a slower call is repeated three times and reported only if slow every time; a call that does not return within 180 s aborts the run as a violation); scaling class: compile time against repetition count 2..60 for 45 nest, chain and prefix shapes must not grow by more than 2.5x per two levels over four consecutive steps from depth 12 on; non-trivial = input accepted, or rejected with more than one token"
 	R.Assume = []string{"termination is only observed under the stated budgets; Go stack exhaustion by inputs beyond 4 KiB is not probed"}
 	reportKnown(t, "C12")
 	runRegress(t, "C12")
@@ -347,6 +374,15 @@ func TestC12(t *testing.T) {
 		for _, c := range scaleCases {
 			if !yield(c) {
 				return
+			}
+		}
+	})
+	c12.Each(t, "fixed-host-values", func(yield func(*APICase) bool) {
+		for _, n := range fixedHostNames() {
+			for _, src := range []string{"1", "a", "V + 1", "(", ""} {
+				if !yield(&APICase{Kind: "fixed-host", Src: src, Fixed: n}) {
+					return
+				}
 			}
 		}
 	})
